@@ -11,7 +11,7 @@ from ..symtab import Sym
 
 LEVEL = 'other'
 EXPLANATION = (
-    'Static analysis (dispatch exhaustiveness + table key completeness). (R1) for each strict translator (Latex, Text: a missing visit_ method raises NotImplementedError) every doctree element class that the tableau document builder can emit -- the closure of `types[...]` references from `tableau.for_object` -- has a visit_ method, and a depart_ method unless the visit_ always raises SkipDeparture/SkipNode; the html translator falls back to default visitors. (R2) every string-table key the translators and the lexical writer look up (access, designation True/False, subscript delimiters, whitespace, parentheses, every lexical key) is present in every table of _symdata (or the lookup is guarded by except KeyError). (R3) the document builder covers the node kinds rules can put on a branch (sentence, access, ellipsis, flag; designation and world sub-elements); every registered writer class is concrete and names its translator; the plain-text template mentions sentence, world, both designation markers, access pair, tick and the closure mark conditioned on the closure flag. Determinism and faithfulness of the rendered text for a given tableau are declined. (R4) ownership: jinja template handles are not stored or memoised.')
+    'Static analysis (dispatch exhaustiveness + table key completeness). (R1) for each strict translator (Latex, Text: a missing visit_ method raises NotImplementedError) every doctree element class that the tableau document builder can emit -- the closure of `types[...]` references from `tableau.for_object` -- has a visit_ method, and a depart_ method unless the visit_ always raises SkipDeparture/SkipNode; the html translator falls back to default visitors. (R2) every string-table key the translators and the lexical writer look up (access, designation True/False, subscript delimiters, whitespace, parentheses, every lexical key) is present in every table of _symdata (or the lookup is guarded by except KeyError). (R3) the document builder covers the node kinds rules can put on a branch (sentence, access, ellipsis, flag; designation and world sub-elements); every registered writer class is concrete and names its translator; the plain-text template mentions sentence, world, both designation markers, access pair, tick and the closure mark conditioned on the closure flag. Determinism and faithfulness of the rendered text for a given tableau are declined. (R4) ownership: jinja template handles are not stored or memoised. R3 folds the node builders over one mock node of every kind, TabWriterMeta.__call__ over registries and _write_structure over mock trees. (R5) class-level containers in the writers package are pure caches: every method reading one is folded three times in a row from an empty container with file reads mocked; the three results are identical (first rendering in a process = second).')
 TRUSTED = ['CPython ast', 'sa.minieval (symbol tables)']
 ASSUMPTIONS = ['element classes are instantiated only through `types[cls]` in nodes.py builders']
 
@@ -292,6 +292,7 @@ def run(ctx, rep):
             rep.finding(R3, f'C19.R3/_write_structure/{label}', m.loc('pytableaux.proof.writers.jinja', ws), 'TextTabWriter._write_structure',
                         f'{label}: structures rendered {rendered} (expected {order} once each, in that order in the text); output {r!r:.120}')
     r4(ctx, rep)
+    r5(ctx, rep)
 
 
 def r4(ctx, rep):
@@ -340,3 +341,70 @@ def r4(ctx, rep):
                     rep.finding(R4, f'C19.R4/{mod}:{qn}/stored/{astq.u(t)}', m.loc(mod, st), qn,
                                 f'`{astq.u(st)[:80]}` keeps a template handle beyond the call')
     rep.floor('C19.R4', 'functions fetching a template handle (+ their stores)', n, 3)
+
+
+def r5(ctx, rep):
+    """Shared mutable state in the writers (class-level / module-level containers): whatever a method computes through such
+    a container must come out the same on a cold container and on the warm one it left behind -- otherwise the first
+    rendering in a process differs from the second."""
+    from ..minieval import Interp, Obj, Raised, Raises
+    m = ctx.m
+    R5 = rep.rule('C19.R5', 'class-level containers in the writers package are pure caches: every method reading one is folded three times in a row '
+                            'from an empty container (file reads mocked); all three results are identical')
+
+    def is_empty_container(v):
+        return (isinstance(v, (ast.Dict, ast.List, ast.Set)) and not (getattr(v, 'keys', None) or getattr(v, 'elts', None))) or \
+               (isinstance(v, ast.Call) and isinstance(v.func, ast.Name) and v.func.id in ('dict', 'list', 'set', 'deque', 'defaultdict') and not v.args and not v.keywords)
+    n = 0
+    for mod in sorted(m.trees):
+        if not mod.startswith(WRITERS):
+            continue
+        for cdef in [x for x in ast.walk(m.trees[mod]) if isinstance(x, ast.ClassDef)]:
+            attrs = [st.targets[0].id for st in cdef.body if isinstance(st, ast.Assign) and isinstance(st.targets[0], ast.Name) and is_empty_container(st.value)]
+            for attr in attrs:
+                users = [fn for fn in cdef.body if isinstance(fn, ast.FunctionDef) and
+                         any(isinstance(a, ast.Attribute) and a.attr == attr for a in ast.walk(fn))]
+                for fn in users:
+                    n += 1
+                    qn = f'{cdef.name}.{fn.name}'
+                    rep.consult(f'{m.loc(mod, fn)} {qn}')
+                    if len(fn.args.args) != 1 or fn.args.kwonlyargs or fn.args.vararg:
+                        raise AnalysisError(f'{mod}:{qn} uses the shared container `{attr}` and takes arguments: idiom not modelled')
+                    reads = []
+
+                    class F:
+                        def __init__(s, path):
+                            s.path = path
+
+                        def __enter__(s):
+                            return s
+
+                        def __exit__(s, *a):
+                            return False
+
+                        def read(s):
+                            reads.append(s.path)
+                            return f'/* contents of {s.path} */\n  body {{ }}\n\n'
+                    it = Interp(dict(open=lambda p, *a, **k: F(p)), where=f'{mod} {qn}', modtree=m.trees[mod])
+                    cls = Obj(cdef.name, __srcclass__=(m, ClassRef(mod, cdef.name)))
+                    for st in cdef.body:
+                        # other class-level attributes: their value when it folds, an opaque stable token otherwise
+                        if isinstance(st, ast.Assign) and isinstance(st.targets[0], ast.Name) and st.targets[0].id != attr:
+                            try:
+                                setattr(cls, st.targets[0].id, it.ev(st.value, {}))
+                            except (Raised, AnalysisError, TypeError, AttributeError, KeyError, ValueError):
+                                setattr(cls, st.targets[0].id, f'<{cdef.name}.{st.targets[0].id}>')
+                    setattr(cls, attr, {})
+                    outs = []
+                    for _ in range(3):
+                        try:
+                            outs.append(it.call(fn, [cls]))
+                        except Raised as e:
+                            outs.append(Raises(e.text))
+                    ok = not any(isinstance(o, Raises) for o in outs) and outs[0] == outs[1] == outs[2]
+                    rep.instance(R5, ok=ok, nontrivial=(mod, qn, attr))
+                    if not ok:
+                        rep.finding(R5, f'C19.R5/{mod}:{qn}/{attr}', m.loc(mod, fn), qn,
+                                    f'three calls in a row starting from an empty `{attr}` give {outs[0]!r}, {outs[1]!r}, {outs[2]!r}: what a rendering '
+                                    f'includes depends on whether the shared container was warm')
+    rep.floor('C19.R5', 'methods over shared containers', n, 1)
